@@ -51,7 +51,7 @@ def run(ck):
     if not ck.prove(["Naga.Props.C09", "Naga.Props.RegKey", "Naga.Props.GlobalInit"]):
         ck.tie_broken("theorems", "Naga.Props.C09 / Naga.Props.RegKey no longer check", str(ck.proof_failed))
     if ck.tier == "thorough":
-        ck.leanchecker(["Naga.Props.C09"])
+        ck.leanchecker(["Naga.Props.C09", "Naga.Props.RegKey", "Naga.Props.GlobalInit"])
     if not ck.build_harness() or not ck.driver():
         return
     # K-tie of the registry model: request sequences through the real TypeRegistry (verif hook)
